@@ -700,7 +700,18 @@ func absEvent(subject, payload string) string {
 			Values map[string]json.RawMessage `json:"values"`
 		}
 		var top map[string]json.RawMessage
-		if json.Unmarshal([]byte(payload), &top) != nil || len(top) != 1 || json.Unmarshal([]byte(payload), &d) != nil || d.Values == nil {
+		if json.Unmarshal([]byte(payload), &top) != nil {
+			return "bad"
+		}
+		// RES-service v1.0: the payload is the values object itself unless it is exactly
+		// {"values":{...}} (codec.IsLegacyChangeEvent)
+		legacy := len(top) != 1
+		if v, ok := top["values"]; !ok || !strings.HasPrefix(strings.TrimLeft(string(v), " \t\r\n"), "{") {
+			legacy = true
+		}
+		if legacy {
+			d.Values = top
+		} else if json.Unmarshal([]byte(payload), &d) != nil || d.Values == nil {
 			return "bad"
 		}
 		keys := make([]string, 0)
